@@ -340,6 +340,7 @@ func c05() {
 		run.Require("kernel_calibration_programs", 20)
 		run.Require("kernel_calibration_rejected_by_both", 5)
 	}
+	run.RunSecondaryBuild()
 	run.Finish(run.Counter("policies"), int64(len(distinct)),
 		"every accepted policy of the degenerate catalogue (empty groups in each position, single name, whole table, 30x8 lists), the C01/C03 catalogues, the name-only and mixed PRNG profiles and size-steered policies of 4088..4100 instructions: raw encoding, kernel-verifier port, reachable return constants within {default, group actions, ENOSYS on x86_64}; distinct = (kind, arch, program length)")
 }
@@ -359,6 +360,9 @@ func neutralise(s vlib.PolicySpec) vlib.PolicySpec {
 // real kernel through the real LoadFilter; (2) the kernel-verifier port is
 // calibrated against seccomp(2) on mutated raw programs.
 func c05KernelTier(run *vlib.Run, ts []*vlib.Target) {
+	if vlib.SubRun() != "" {
+		return
+	}
 	o, err := vlib.LoadOracles()
 	if err != nil {
 		run.Inconclusive(err.Error())
